@@ -208,16 +208,28 @@ def run(ctx):
         if b is None:
             continue
         ps = [proj.gen_project(rng, {"fk": False}) for _ in range(ctx.budget(40, 400))]
+        for p in ps:
+            # YAML: each file is named `.yaml` or `.yml` (both are documented)
+            p["yml"] = {k for k in p["files"] if rng.chance(1, 2)}
+        # an explicitly empty namespace list: nothing is read, whatever lies in the directory
+        for _ in range(3):
+            q = proj.gen_project(rng, {"fk": False})
+            q["namespaces"] = []
+            ps.append(q)
         outs = run_lines_resilient(b, [proj.harness_req(p, fmt) for p in ps])
         for p, r in zip(ps, outs):
+            if p.get("namespaces") == [] and ("tracked" not in r or "cfg" not in r):
+                report_violation(ctx, "config:empty-namespace-list-reads-files", {"case": project_text(p), "format": fmt, "implementation": r.get("result", r),
+                                                                                 "expected_by_spec": "no file is read: there is no (namespace, locale) pair"})
+                continue
             if "tracked" not in r or "cfg" not in r:
                 continue
             cfg = r["cfg"]
-            ext = proj.EXT[fmt]
-            if cfg["namespaces"]:
-                exp = [f"{cfg['locales_dir']}/{l}/{ns}.{ext}" for ns in cfg["namespaces"] for l in cfg["locales"]]
+            ext = lambda ns, l: proj.file_ext(p, fmt, ns, l)
+            if cfg["namespaces"] is not None:
+                exp = [f"{cfg['locales_dir']}/{l}/{ns}.{ext(ns, l)}" for ns in cfg["namespaces"] for l in cfg["locales"]]
             else:
-                exp = [f"{cfg['locales_dir']}/{l}.{ext}" for l in cfg["locales"]]
+                exp = [f"{cfg['locales_dir']}/{l}.{ext(None, l)}" for l in cfg["locales"]]
             ctx.seen({"files_read": exp, "fmt": fmt})
             ctx.count("files-read:" + fmt)
             if r["tracked"] != exp:
